@@ -401,7 +401,14 @@ def handle_failures_sched(pid, spec, failures, binp, scratch, seed):
                        VERIF_OUT=op, VERIF_STUCK_S="45", GOMAXPROCS="2")
             subprocess.run([binp, "-test.run", "^TestSim$", "-test.timeout", "0"], env=env, cwd=scratch, stdout=subprocess.DEVNULL, stderr=subprocess.DEVNULL)
             if os.path.exists(op + ".stuck"):
+                stacks = open(op + ".stuck.stacks").read() if os.path.exists(op + ".stuck.stacks") else ""
+                if re.search(r"sync\.\(\*(RW)?Mutex\)\.(Lock|RLock|lockSlow)|sync\.\(\*Once\)\.doSlow|internal/sync\.\(\*Mutex\)\.lockSlow", stacks):
+                    # a goroutine waits for a REAL lock whose holder is parked by the simulator: a limit of the
+                    # machinery (that lock lives in code that is not instrumented), never a finding
+                    print(stacks[:3000])
+                    infra("a run stalls on a real (un-simulated) lock held by a parked task; instrument the package that owns it")
                 os.makedirs(os.path.join(VERIF, "replays"), exist_ok=True)
+                f["stacks"] = stacks[:6000]
                 f["confirmed_in_fresh_process"] = True
                 f["note"] = "replay: VERIF_SEED=%s VERIF_START=%d VERIF_COUNT=1 (the run spins without reaching a scheduling point)" % (seed, f["index"])
                 k = match_known(pid, f)
